@@ -204,6 +204,23 @@ func (f *FakeS3) Expire(n int, pick func(k int) int) []string {
 	return gone
 }
 
+// ExpireRecords removes every object whose key contains part (e.g. "/target/") and returns the keys.
+func (f *FakeS3) ExpireRecords(part string) []string {
+	f.mu.Lock()
+	defer f.mu.Unlock()
+	var gone []string
+	for k := range f.Objects {
+		if strings.Contains(k, part) {
+			gone = append(gone, k)
+		}
+	}
+	sort.Strings(gone)
+	for _, k := range gone {
+		delete(f.Objects, k)
+	}
+	return gone
+}
+
 // PutKeys returns the keys of the successful PUT requests (since the last Reset) that contain part.
 func (f *FakeS3) PutKeys(part string) []string {
 	f.mu.Lock()
